@@ -66,6 +66,15 @@ def roundtrip(obj, protocol):
             else:
                 os.mkdir("sub")
                 name = os.path.join("sub", os.path.basename(path))
+        n_rt = PATH_FORM[0] // 4
+        if n_rt % 3 == 1:
+            # checkpointing: the target already holds an EARLIER save (of another object) - the new save replaces it
+            import frouros.detectors.concept_drift as _cd
+            save(_cd.DDM(), filename=name, pickle_protocol=protocol)
+        if n_rt % 2 == 1:
+            # `open()` takes any path-like object: `tmp_path / "det.pkl"`, `Path("models") / "ddm.pkl"`
+            import pathlib
+            name = pathlib.Path(name)
         save(obj, filename=name, pickle_protocol=protocol)
         return load(filename=name)
     finally:
